@@ -1,0 +1,105 @@
+// Copyright Suneido Software Corp. All rights reserved.
+// Governed by the MIT license found in the LICENSE file.
+
+//go:build verif && !gui
+
+package dbms
+
+// Hooks for the external property checks (build tag verif).
+// Add-only: nothing here is referenced by the normal build.
+
+import (
+	"crypto/tls"
+	"crypto/x509"
+	"errors"
+	"net"
+	"sort"
+	"sync"
+
+	"github.com/apmckinlay/gsuneido/dbms/mux"
+	"golang.org/x/time/rate"
+)
+
+var verifOnce sync.Once
+var verifConfig *tls.Config
+
+// VerifServe runs the real server connection code (newServerConn:
+// hello exchange, TLS upgrade with the embedded key pair, HaveUsers wrap,
+// mux reader feeding the shared workers) on conn.
+// It returns when the connection is closed.
+// The worker pool is started once per process, like Server does.
+func VerifServe(dbms *DbmsLocal, conn net.Conn) {
+	verifOnce.Do(func() {
+		workers = mux.NewWorkers(doRequest)
+		cert, err := tls.X509KeyPair(ServerCert, ServerKey)
+		if err != nil {
+			panic("VerifServe: embedded key pair: " + err.Error())
+		}
+		verifConfig = &tls.Config{Certificates: []tls.Certificate{cert}}
+	})
+	newServerConn(dbms, conn, verifConfig)
+}
+
+// VerifClientHandshake is the part of ConnectClient after the dial:
+// the real hello/checkHello exchange and the TLS client upgrade
+// verifying the server against the embedded certificate.
+// Unlike ConnectClient it returns errors instead of calling Fatal.
+func VerifClientHandshake(conn net.Conn) (net.Conn, error) {
+	if _, err := conn.Write(hello()); err != nil {
+		return nil, err
+	}
+	if errmsg := checkHello(conn); errmsg != "" {
+		return nil, errors.New(errmsg)
+	}
+	caCertPool := x509.NewCertPool()
+	if !caCertPool.AppendCertsFromPEM(ServerCert) {
+		return nil, errors.New("Failed to append embedded cert to pool")
+	}
+	config := &tls.Config{
+		RootCAs:    caCertPool,
+		ServerName: "localhost", // Must match CN or SAN
+	}
+	tlsConn := tls.Client(conn, config)
+	if err := tlsConn.Handshake(); err != nil {
+		return nil, errors.New("TLS handshake failed: " + err.Error())
+	}
+	return tlsConn, nil
+}
+
+// VerifAuthRate sets the rate of the authentication limiter
+// (4 per second normally, which would cap a search at 4 attempts/s)
+// and returns the previous rate.
+func VerifAuthRate(r rate.Limit) rate.Limit {
+	old := authLimiter.Limit()
+	authLimiter.SetLimit(r)
+	return old
+}
+
+// VerifTokens returns the currently valid one-time tokens (sorted).
+func VerifTokens() []string {
+	tokensLock.Lock()
+	defer tokensLock.Unlock()
+	list := make([]string, 0, len(tokens))
+	for t := range tokens {
+		list = append(list, t)
+	}
+	sort.Strings(list)
+	return list
+}
+
+// VerifClearTokens forgets all tokens (process-global state; lets cases
+// start from the same state). It returns how many were dropped.
+func VerifClearTokens() int {
+	tokensLock.Lock()
+	defer tokensLock.Unlock()
+	n := len(tokens)
+	clear(tokens)
+	return n
+}
+
+// VerifServerConns returns the number of registered server connections.
+func VerifServerConns() int {
+	serverConnsLock.Lock()
+	defer serverConnsLock.Unlock()
+	return len(serverConns)
+}
